@@ -3,7 +3,8 @@
 For (state, op) pairs - the state is built by a short op sequence on a REAL FileJournal with the
 recorder on - every crash point (k, t) is enumerated: k = number of primitive writes of the op that
 completed (0..np, np = finished), t = bytes of primitive k that still reached the file (sampled for
-the tearable ones).  The real crash image is obtained in two ways: (A) snapshot of the three files
+the tearable ones).  A crash image is an image of the DIRECTORY: journal, `<journal>.tmp` (the new file of
+a head drop), `.meta`, `.meta.tmp`.  It is obtained in two ways: (A) snapshot of these files
 before the op + the first k recorded primitives (+ t bytes of the next) applied to it; (B) a real kill:
 pre-op files copied to a fresh place, fresh FileJournal, recorder with kill plan (k, t), op run until
 `Killed`, objects abandoned without _destroy/flush - (B) must equal (A) byte for byte (all points of
@@ -11,9 +12,13 @@ the directed cases, a sample elsewhere).  The image is reopened with the REAL cl
 the model's `crash k t <op>` (file size + adler32, full bytes via `crashimg` when <= 16 KiB, .meta /
 .meta.tmp, reopened len / offset / commit index / entries); a sample of reopened images is driven on
 (`load` + a few ops on both sides).
+`<journal>.tmp` is compared too (`jt=`, bytes via `crashjt`), reopen must leave it alone, and `crashat`
+steps (a head drop really killed at or before its rename, then reopened) put a stale tmp into the
+states from which further ops - further head drops included - are crash-enumerated.
 Independently of the model the crash clause of the property statement is monitored on the real
-reopened journal (lib.crash_monitor).  The known head-drop loss D15 (deleteEntriesTo = clear + re-add)
-is only counted here (`d15_headdrop_losses`); it is reported by witness.d15_journal_headdrop_kill."""
+reopened journal (lib.crash_monitor).  The head-drop loss D15 (deleteEntriesTo = clear + re-add, repaired
+by fixes/D15-journal-head-drop-by-atomic-replace.diff) is reported as a violation with its old signature
+and counted under `d15_headdrop_losses` (0 on a repaired tree)."""
 import os
 import shutil
 import time
@@ -34,8 +39,8 @@ def directed_cases():
     """(ops, index of the op whose crash points are enumerated - all of them really killed)"""
     cs = []
 
-    def case(name, pre, op, post=()):
-        cs.append({"name": name, "ops": list(pre) + [op] + list(post), "crash": {len(pre)}, "kill_all": True, "all_t": True})
+    def case(name, pre, op, post=(), all_t=True):
+        cs.append({"name": name, "ops": list(pre) + [op] + list(post), "crash": {len(pre)}, "kill_all": True, "all_t": all_t})
 
     case("add-small", small_adds(3), ["add", 4, 1, {"n": 30, "s": 9}])
     case("add-first", [], ["add", 1, 1, {"n": 7, "s": 9}])
@@ -54,9 +59,28 @@ def directed_cases():
         case("delfrom-back%d" % r, small_adds(30), ["delfrom_back", r])
     case("delfrom-beyond", small_adds(3), ["delfrom", 8])
     for n in (0, 1, 2, 4, 5, 7):
-        case("delto-%d" % n, small_adds(5), ["delto", n])
+        case("delto-%d" % n, small_adds(5), ["delto", n], all_t=(n == 2))
     case("delto-big-records", [["add", 1, 1, {"n": 900, "s": 1}], ["add", 2, 1, {"n": 900, "s": 2}], ["add", 3, 1, {"n": 900, "s": 3}]],
-         ["delto", 1])
+         ["delto", 1])                                                                                   # tmp file grows
+    case("delto-tmp-grows-to-fit", [["add", 1, 1, {"n": 3, "s": 1}], ["add", 2, 1, {"n": 5000, "s": 2}]], ["delto", 1])
+    case("delto-empty-journal", [], ["delto", 0])
+    case("delto-after-reopen", small_adds(4) + [["reopen", "abandon"]], ["delto", 1], all_t=False)
+    case("delto-after-delto", small_adds(6) + [["delto", 2]], ["delto", 1], all_t=False)
+    case("delto-pending-ci", small_adds(3) + [["setci", 5], ["timer"], ["setci", 6]], ["delto", 1], [["timer"]], all_t=False)
+    # a stale <journal>.tmp left by a head drop killed at / before its rename: every later op is
+    # indifferent to it, reopen ignores it, the next head drop removes it first (JR) - and is killed again
+    for kk, tt in ((1, 0), (2, 0), (2, 23), (4, 11), (0.999, 0)):
+        stale = small_adds(5) + [["crashat", ["delto", 2], kk, tt]]
+        case("stale-k%s-t%d-delto" % (kk, tt), stale, ["delto", 1], all_t=(kk == 0.999))
+    stale = small_adds(5) + [["crashat", ["delto", 2], 0.999, 0]]
+    case("stale-delto-all", stale, ["delto", 9])
+    case("stale-delto-after-reopen", stale + [["reopen", "destroy"]], ["delto", 3], all_t=False)
+    case("stale-add", stale, ["add", 9, 2, {"n": 10, "s": 4}])
+    case("stale-add-grow", stale + [["reopen", "abandon"]], ["addfit", 2, 1, 9, 2, 4])
+    case("stale-delfrom", stale, ["delfrom", 2])
+    case("stale-clear", stale, ["clear"])
+    case("stale-timer", stale + [["setci", 7]], ["timer"])
+    case("stale-twice", stale + [["crashat", ["delto", 1], 1, 0], ["crashat", ["delto", 1], 0.999, 0]], ["delto", 2], all_t=False)
     case("timer-first", [["setci", 5]], ["timer"])
     case("timer-replace", [["setci", 5], ["timer"], ["add", 1, 1, {"n": 3, "s": 1}], ["setci", 9]], ["timer"])
     case("timer-idle", [["setci", 5], ["timer"]], ["timer"])
@@ -87,6 +111,8 @@ class Walker(object):
         self.killdir = os.path.join(tmp, "kill")
         os.makedirs(self.killdir, exist_ok=True)
         self.killpath = os.path.join(self.killdir, "j")
+        if model2 is not None:
+            model2.new()                            # `load` keeps the APP_VERSION of the last `new`
         self.points = set()
         self.samples = []
         self.d15_example = None
@@ -94,7 +120,8 @@ class Walker(object):
 
     def over(self):
         """enough failures collected (a broken tree fails at nearly every point) or out of time"""
-        if self.cov.get("monitor_failures", 0) + self.cov.get("disagreements_seen", 0) >= 12:
+        mf, ds = self.cov.get("monitor_failures", 0), self.cov.get("disagreements_seen", 0)
+        if mf >= 12 or (mf >= 1 and mf + ds >= 12) or ds >= 80:     # keep looking for a failing input for a while
             return True
         return self.deadline is not None and time.time() > self.deadline
 
@@ -128,6 +155,14 @@ class Walker(object):
             cov.hit("points.delfrom_with_intermediate_header_writes")
         if kind == "timer" and np_:
             cov.hit("points.timer_TC_TW_TM")
+        if kind == "delto" and np_ and prims[-1][0] == "JM":
+            cov.hit("points.delto_after_rename" if k == np_ else "points.delto_before_rename")
+            if prims[0][0] == "JR":
+                cov.hit("points.delto_with_stale_tmp")
+            if [p[0] for p in prims].count("JZ") > 1:
+                cov.hit("points.delto_tmp_grows")
+        if snap[3] is not None:
+            cov.hit("points.with_stale_tmp")
         img = lib.apply_prims(snap, prims, k, t)
         if k == np_ and img != final:
             self.disagree("interception: the recorded primitives do not reproduce the files after the op",
@@ -140,7 +175,7 @@ class Walker(object):
             if exc is not None:
                 self.violate("journal.%s:exception:%s" % (kind, type(exc).__name__), "%s raised %r" % (op[:3], exc), inp)
             if killed != (k < np_) or imgB != img:
-                which = [n for n, a, b in zip(("journal", ".meta", ".meta.tmp"), img, imgB) if a != b]
+                which = [n for n, a, b in zip(("journal", ".meta", ".meta.tmp", "journal.tmp"), img, imgB) if a != b]
                 self.disagree("kill: files after a real kill differ from snapshot + recorded primitives", "-",
                               "killed=%s differing=%s prims done=%s" % (killed, which, lib.prims_str(done, jm)), inp)
         # reopen with the real class
@@ -160,32 +195,45 @@ class Walker(object):
                     h = self.model.ask("crashimg %d %d %s" % (k, t, line))
                     if (b"" if h == "-" else bytes.fromhex(h)) != img[0]:
                         self.disagree("crash image bytes differ", h[:200], img[0].hex()[:200], inp)
+                    if img[3] is not None and len(img[3]) <= lib.FULL_IMG_LIMIT:
+                        cov.hit("crashjt_compared")
+                        h = self.model.ask("crashjt %d %d %s" % (k, t, line))
+                        if h == "absent" or (b"" if h == "-" else bytes.fromhex(h)) != img[3]:
+                            self.disagree("crash image bytes of <journal>.tmp differ", h[:200], img[3].hex()[:200], inp)
+            # reopening must leave a stale <journal>.tmp alone
+            if "real" in o and img[3] is not None:
+                cov.hit("reopen_with_stale_tmp")
+                if lib._read(self.scratch + ".tmp") != img[3]:
+                    self.disagree("reopen touched <journal>.tmp", "unchanged", "changed or removed", inp)
             # property monitor (model-free)
             if "err" in o:
                 self.violate("journal.%s:reopen-raises-after-kill:%s" % (kind, o["err"]),
                              "reopening after a kill inside %s at primitive %d (+%d bytes) raises %s" % (op[:3], k, t, o["err"]), inp)
             else:
                 m = lib.crash_monitor(op, old, o["ents"], o["ci"], allowed)
-                if m is not None and m[0] == "D15":
-                    cov.hit("d15_headdrop_losses")
-                    if self.d15_example is None:
-                        self.d15_example = "k=%d t=%d of %d primitives: %s" % (k, t, np_, m[1])
-                elif m is not None:
+                if m is not None:
+                    if m[0] == lib.D15_SIGNATURE:
+                        cov.hit("d15_headdrop_losses")
                     self.violate(m[0], m[1] + " (kill at primitive %d of %d, +%d bytes)" % (k, np_, t), inp)
                 # drive the reopened image on
                 if cont_rng is not None and img[2] is None and self.model2 is not None:
-                    self.continue_from(o["real"], img, cont_rng, inp)
+                    self.continue_from(o, img, cont_rng, inp)
         finally:
             if "real" in o:
                 o["real"].abandon()
             lib.remove_files(self.scratch)
 
-    def continue_from(self, r2, img, rng, inp):
-        """the crash image as a starting state: model `load`, then a few ops on both sides"""
+    def continue_from(self, o, img, rng, inp):
+        """the crash image as a starting state: model `load` (with the left-over <journal>.tmp if there
+        is one), then a few ops on both sides - reopen and further head drops included"""
         jm = self.jm
+        r2 = o["real"]
         self.cov.hit("continued_after_crash")
+        stale = img[3] is not None
+        if stale:
+            self.cov.hit("continued_with_stale_tmp")
         meta = lib.meta_str(jm, self.scratch)
-        reply = self.model2.ask("load %s %s" % (img[0].hex() or "-", meta))
+        reply = self.model2.ask("load %s %s%s" % (img[0].hex() or "-", meta, " " + (img[3].hex() or "-") if stale else ""))
         mine = "ok " + r2.summary(r2.open_prims)
         if reply != mine:
             self.disagree("load of a crash image: " + lib.first_diff(reply, mine), reply, mine, inp)
@@ -195,17 +243,25 @@ class Walker(object):
         ops = []
         for _ in range(3):
             c = rng.random()
-            if c < 0.5:
+            if c < (0.3 if stale else 0.5):
                 op = ["add", rng.randrange(1, 99), rng.randrange(1, 9), {"n": rng.choice([0, 5, 40, 1500]), "s": rng.randrange(99)}]
-            elif c < 0.7:
+            elif c < (0.4 if stale else 0.65):
                 op = ["delfrom", max(len(ref) - rng.choice([0, 1, 2, 10]), 0)]
-            elif c < 0.85:
+            elif c < (0.7 if stale else 0.8):
                 op = ["delto", rng.randrange(len(ref) + 2)]
+            elif c < 0.9:
+                op = ["reopen", rng.choice(["destroy", "abandon"])]
             else:
                 op = rng.choice([["clear"], ["setci", 77], ["timer"]])
             ops.append(op)
             try:
-                prims = r2.apply(op)
+                if op[0] == "reopen":
+                    r2 = o["real"] = lib.reopen(r2, op[1])
+                    prims = r2.open_prims
+                else:
+                    prims = r2.apply(op)
+                    if op[0] == "delto" and prims and prims[0][0] == "JR":
+                        self.cov.hit("continued_delto_removes_stale_tmp")
             except Exception as e:                       # noqa
                 self.violate("journal.%s:exception:%s" % (op[0], type(e).__name__),
                              "after kill+reopen, %s raised %r" % (op[:3], e), dict(inp, then=ops))
@@ -255,9 +311,26 @@ class Walker(object):
                 if op[0] == "add" and (op[1] >= lib.U64 or op[2] >= lib.U64):
                     continue
                 if op[0] == "reopen":
+                    if os.path.exists(self.path + ".tmp"):
+                        cov.hit("walk.reopen_with_stale_tmp")
                     real = lib.reopen(real, op[1])
                     reply = model.ask("reopen") if model is not None else None
                     prims = real.open_prims
+                elif op[0] == "crashat":
+                    # a head drop really killed at / before its rename, then reopened: the list must be
+                    # unchanged; the model takes its own crash image as the new state
+                    op, _ = lib.concretise_crashat(jm, self.killpath, real, op)
+                    real, _killed = lib.crash_reopen(real, op[1], op[2], op[3])
+                    prims = real.open_prims
+                    cov.hit("walk.crashat")
+                    if os.path.exists(self.path + ".tmp"):
+                        cov.hit("walk.crashat_leaves_stale_tmp")
+                    reply = None
+                    if model is not None:
+                        reply = lib.model_crash_load(model, op[1], op[2], op[3])
+                        if reply is None:
+                            self.disagree("crashat: model image has a .meta.tmp", "-", "-", {"pre": list(pre), "op": op})
+                            break
                 else:
                     enum = crash == "all" or (crash == "some" and rng.random() < case.get("p", 0.4)) or \
                         (isinstance(crash, set) and i in crash)
@@ -292,7 +365,12 @@ class Walker(object):
                             self.samples.append({"name": case["name"], "entries_before": len(old), "op": op,
                                                  "primitives": lib.prims_str(prims, jm),
                                                  "crash_points": "k=0..%d, every sampled t really killed and reopened" % np_})
-                        for k in range(np_ + 1):
+                        ks = list(range(np_ + 1))
+                        if np_ > 14 and not case.get("kill_all", False):
+                            # long head drops in the seeded stream: both ends + a sample of the middle
+                            ks = sorted(set(ks[:4] + ks[-3:] + rng.sample(ks, 6)))
+                            cov.hit("pairs.k_sampled")
+                        for k in ks:
                             L = lib.prim_len(prims[k]) if k < np_ else 0
                             for t in t_values(L, rng, case.get("all_t", False)):
                                 if self.over():
@@ -358,15 +436,15 @@ def run(ctx):
     cov = lib.Cov()
     out = {"cases": 0, "distinct": 0, "coverage": cov, "samples": [], "disagreements": [], "violations": []}
     w = Walker(jm, model, model2, tmp, cov, out)
-    budget = ctx.scale(20.0, 230.0)       # safety net only
+    budget = ctx.scale(24.0, 230.0)       # safety net only
     w.deadline = t0 + budget
     try:
         for c in directed_cases():
             if w.over():
                 break
-            w.walk(c, ctx.rng("journal_crash/" + c["name"]), 1.0, 0.3)
+            w.walk(c, ctx.rng("journal_crash/" + c["name"]), 1.0, 0.2)
             cov.hit("sequences.directed")
-        n_rand = ctx.scale(40, 1600)
+        n_rand = ctx.scale(20, 1400)
         done = 0
         for i in range(n_rand):
             if time.time() - t0 > budget or len(out["disagreements"]) >= 3 or w.over():
@@ -384,15 +462,19 @@ def run(ctx):
         model2.close()
     out["distinct"] = len(w.points)
     cov["crash_points"] = len(w.points)
-    if w.d15_example:
-        out["notes"] = "known D15 (reported by witness.d15_journal_headdrop_kill), first loss seen here: " + w.d15_example
+    cov.setdefault("d15_headdrop_losses", 0)
     out["samples"] = w.samples
     out["coverage"] = dict(sorted(cov.items()))
     out["wall_s"] = round(time.time() - t0, 2)
     floors = [("points.add", 100), ("points.clear", 4), ("points.delfrom", 20), ("points.delto", 50), ("points.timer", 10),
               ("points.setci", 1), ("points_torn", 100), ("torn.S", 50), ("torn.TW", 5), ("kills_executed", 200),
               ("points.add_with_growth", 20), ("points.delfrom_with_intermediate_header_writes", 8),
-              ("points.timer_TC_TW_TM", 10), ("crashimg_compared", 200), ("continued_after_crash", 20)]
+              ("points.timer_TC_TW_TM", 10), ("crashimg_compared", 200), ("continued_after_crash", 20),
+              # head drop by new file + rename
+              ("points.delto_before_rename", 100), ("points.delto_after_rename", 10), ("torn.JS", 30), ("torn.JW", 10),
+              ("points.delto_with_stale_tmp", 30), ("points.delto_tmp_grows", 20), ("points.with_stale_tmp", 50),
+              ("reopen_with_stale_tmp", 50), ("crashjt_compared", 50), ("continued_with_stale_tmp", 10),
+              ("continued_delto_removes_stale_tmp", 2), ("walk.crashat_leaves_stale_tmp", 5)]
     missed = ["%s=%d<%d" % (k, cov.get(k, 0), f) for k, f in floors if cov.get(k, 0) < f]
     if done < n_rand // 2 and len(out["disagreements"]) < 3:
         missed.append("random sequences %d < %d (time budget)" % (done, n_rand // 2))
@@ -437,6 +519,9 @@ def replay_crash(jm, tmp, rp):
         for op in rp.get("pre", []):
             if op[0] == "reopen":
                 real = lib.reopen(real, op[1])
+            elif op[0] == "crashat":
+                op, _ = lib.concretise_crashat(jm, os.path.join(tmp, "dry"), real, op)
+                real, _k = lib.crash_reopen(real, op[1], op[2], op[3])
             else:
                 real.apply(op)
                 if op[0] == "setci":
@@ -488,6 +573,4 @@ def replay(ctx, violation):
         m, killed = replay_crash(jm, tmp, rp)
     finally:
         shutil.rmtree(tmp, ignore_errors=True)      # ./check --replay does not clean up the ctx
-    if m is not None and m[0] == "D15":
-        m = (lib.D15_SIGNATURE, m[1])
     return {"violated": m is not None, "signature": m and m[0], "what": m and m[1], "killed": killed, "tree": ctx.repo}
